@@ -101,6 +101,17 @@ CLAIMS = {
    "(3) application scans: same bound on probe start times (+ worker count for observation skew), and a stall scenario (whole worker pool held, then released) where the m-th probe after release may not start before release + (m-12)W/N whatever the worker count. "
    "(4) with 1/300ms, replies arriving after probe 1 are all read before probe 3 is written.",
    "lower bounds only - a slow machine cannot raise an alarm; the limiter library's slack of 10 is taken from its source (v0.2.0)", "C15"),
+ "C16": _c("E2-cmdwire",
+   "property-based testing: full commands on the virtual wire with a reply-shaped frame injected within the exit delay after the last probe of every chunk; one-sided timing bounds",
+   "Exploration. Every packet-scan command (both link modes, 1..3 chunks, optionally a rate-limited send phase longer than the delay) with --exit-delay 80..1200 ms: a reply arriving at u*delay (u<=0.5) after the last probe of each chunk must be delivered and reported, "
+   "each chunk's socket stays open >= delay after its last probe, Execute() returns >= delay and <= delay+10 s after the last probe, all lines complete. Application scans: flag parsing + startScanEngine with timed probes, and the full command against a closed loopback port.",
+   "lower bounds one-sided on the monotonic clock; the virtual wire's close time stands for the kernel socket's", "C16"),
+ "C19": _c("E2-cmdwire",
+   "property-based testing: generated subnets / scripted delegates / cancel points through the live request generator with delegate-side timestamps; arp --live commands interrupted by SIGINT",
+   "Exploration. scan.NewLiveRequestGenerator over the real IP request generator (+exclusion filter) or a scripted delegate (varying pass sizes, a pass - or all later passes - failing to start), prompt or slow consumer, cancellation inside a pass or in the wait: "
+   "consecutive passes each cover the target exactly once, next pass started >= interval after the previous one was drained (one-sided), passes keep coming, the stream ends after cancel, no crash / end of stream / busy loop on a failed pass. "
+   "Command level: sx arp --live on the virtual wire until SIGINT - per-target counts floor/ceil, first probe of pass k not before start+(k-1)*interval, each answering host printed once.",
+   "whether passes resume after a failed one is a don't-care; command-level coverage judged by counts (pipeline may reorder)", "C19"),
 }
 
 # properties not (yet) claimed
